@@ -78,16 +78,35 @@ def guard_idiom(model, fi, name):
                     has_guard = True
                     continue
             return False
+        def pure_guard(nm):
+            ds = model.local_defs(f, nm)
+            return bool(ds) and all(isinstance(x, ast.AST) and
+                                    _is_guard_source(x) for x in ds)
         if _is_guard_source(d):
             has_guard = True
+        elif isinstance(d, ast.Name) and d.id != 'getattr' and \
+                d.id != name and pure_guard(d.id):
+            # guard = md.guarded_getattr; ...; name = guard
+            has_guard = True
         elif isinstance(d, ast.Name) and d.id == 'getattr':
-            # must be under `if name is None`
+            # must be under `if name is None` (or under the same test of
+            # the local that holds the guard)
             ok = False
             asg = d._dt_parent
             for anc in ancestors(asg):
-                if isinstance(anc, ast.If) and \
-                        norm(anc.test) == f'{name} is None' and \
-                        asg in anc.body:
+                if not (isinstance(anc, ast.If) and isinstance(
+                        anc.test, ast.Compare) and len(anc.test.ops) == 1
+                        and isinstance(anc.test.left, ast.Name) and
+                        isinstance(anc.test.comparators[0], ast.Constant)
+                        and anc.test.comparators[0].value is None):
+                    continue
+                g_ = anc.test.left.id
+                if g_ != name and not pure_guard(g_):
+                    continue
+                if (isinstance(anc.test.ops[0], ast.Is) and
+                        asg in anc.body) or (
+                        isinstance(anc.test.ops[0], ast.IsNot) and
+                        asg in anc.orelse):
                     ok = True
             if not ok:
                 return False
@@ -104,11 +123,42 @@ def returns_guard(model, fi, _depth=0):
     rets = [n for n in own_nodes(fi.node) if isinstance(n, ast.Return)]
     if not rets:
         return False
+    def pure_guard(name):
+        defs = model.local_defs(fi, name)
+        return bool(defs) and all(isinstance(d, ast.AST) and
+                                  _is_guard_source(d) for d in defs)
+    guard_returned = False
     for r in rets:
-        if not (isinstance(r.value, ast.Name) and
-                guard_idiom(model, fi, r.value.id)):
-            return False
-    return True
+        v = r.value
+        if isinstance(v, ast.Name) and guard_idiom(model, fi, v.id):
+            guard_returned = True
+            continue
+        # early-return form of the idiom:
+        #   guard = md.guarded_getattr
+        #   if guard is None: return getattr
+        #   return guard
+        if isinstance(v, ast.Name) and pure_guard(v.id):
+            guard_returned = True
+            continue
+        if isinstance(v, ast.Name) and v.id == 'getattr':
+            ok = False
+            for anc in ancestors(r):
+                if isinstance(anc, ast.If) and isinstance(
+                        anc.test, ast.Compare) and len(anc.test.ops) == 1 \
+                        and isinstance(anc.test.left, ast.Name) and \
+                        pure_guard(anc.test.left.id) and isinstance(
+                            anc.test.comparators[0], ast.Constant) and \
+                        anc.test.comparators[0].value is None:
+                    in_body = any(r is x for b in anc.body
+                                  for x in ast.walk(b))
+                    if (isinstance(anc.test.ops[0], ast.Is) and in_body) or \
+                            (isinstance(anc.test.ops[0], ast.IsNot) and
+                             not in_body):
+                        ok = True
+            if ok:
+                continue
+        return False
+    return guard_returned
 
 
 def namespace_names(model, fi):
@@ -607,6 +657,15 @@ def rule_restricted(model):
                 norm(n.targets[0].value) == norm(ev[0].args[1]):
             guarded = any(isinstance(a, ast.If) and 'not in' in norm(a.test)
                           for a in ancestors(n))
+            sl = n.targets[0].slice
+            if isinstance(sl, ast.Constant) and sl.value in (
+                    '_getattr_', '_getitem_', '__builtins__'):
+                # the guard binding itself, written as a store
+                exp = {'_getattr_': gv, '_getitem_': iv,
+                       '__builtins__': 'None'}[sl.value]
+                if norm(n.value) == exp:
+                    r.instance(fi.where, n, 'guard binding')
+                    continue
             if not guarded:
                 # guard clause: `if name in d: continue` earlier in the
                 # same block
